@@ -370,6 +370,24 @@ class RuleRun:
             return z3.Implies(z3.And(pd, qd), pv == qv)
 
         prop, clause = ("C02", "equation/same-solutions") if is_eq else ("C01", "value/preserved")
+        if self._wants("value") and is_eq:
+            # "never divides by zero": an equation that was defined stays defined
+            try:
+                L0 = heap.complete(I, pre_root, "left")
+                R0 = heap.complete(I, pre_root, "right")
+                memo = {}
+                d0 = z3.And(heap.pre(I, L0)[1], heap.pre(I, R0)[1])
+                d1 = z3.And(heap.post(I, heap.cur_child(I, post_root, "left"), memo)[1], heap.post(I, heap.cur_child(I, post_root, "right"), memo)[1])
+                axioms = heap.pre_axioms(I)
+                gd = z3.Implies(d0, d1)
+                axioms += pow_instances([gd] + axioms + list(ps.pc))
+                splits = relevant_splits(kind_splits(heap, node), [gd] + axioms)
+                vd = prove_split(list(ps.pc) + heap.kind_domains(), axioms, gd, [(k, cs) for k, cs, _ in splits], timeout_ms=self.timeout_ms)
+                dd = decode_cases(getattr(vd, "failed_cases", []), splits) if vd.status != "proved" else ""
+                vd.model = None
+                rep.obligations.append(Obligation("C02", "equation/defined-stays-defined", vd, detail=dd))
+            except StructureError:
+                pass
         if self._wants("value"):
             try:
                 self._prove_value(I, ps, heap, node, result, make_goal, prop, clause, rep)
@@ -713,7 +731,7 @@ def pow_instances(terms) -> List[Any]:
             return
         seen.add(t.get_id())
         if z3.is_app(t):
-            if t.decl().name() == "pow" and t.num_args() == 2:
+            if t.decl().name() in (POW.name(), DEFPOW.name()) and t.num_args() == 2:
                 pows.append(t)
             for c in t.children():
                 walk(c)
